@@ -65,6 +65,7 @@ def run(ctx):
         gens.append(("C06_q", dict(mode="bfs")))
         gens.append(("C06_sim", dict(mode="simulate", num=400, depth=12)))
     else:
+        gens.append(("C06_q", dict(mode="bfs")))   # the quick scope is part of the thorough one
         gens.append(("C06_t_roaring", dict(mode="bfs")))
         gens.append(("C06_t_tails", dict(mode="bfs")))
         gens.append(("C06_t_rest", dict(mode="bfs")))
